@@ -32,6 +32,7 @@ func runC17Gaps2(c *eng.Ctx) {
 	c17g2Batch(c)
 	c17g2HMAC(c)
 	c17g2Trim(c, &F)
+	c17g2PersistRollback(c)
 	c17g2Datakey(c)
 	c17g2AssocHelper(c)
 }
@@ -619,13 +620,22 @@ func c17g2Trim(c *eng.Ctx, F *c17fields) {
 	ws := c.P.FieldWriters(amv)
 	bad := false
 	for _, w := range ws {
-		if eng.FuncName(w.Fn) != "keysutil.(*Policy).handleArchiving" {
-			bad = true
-			c.Violation(w.Fn, "writers{Policy.ArchiveMinVersion}", w.Store.Pos(), "store to Policy.ArchiveMinVersion outside handleArchiving", nil)
+		if eng.FuncName(w.Fn) == "keysutil.(*Policy).handleArchiving" {
+			continue
 		}
+		// Persist's rollback writing back a captured snapshot (checked by c17g2PersistRollback)
+		if par := w.Fn.Parent(); par != nil && eng.FuncName(par) == "keysutil.(*Policy).Persist" {
+			if ld, ok := w.Store.Val.(*ssa.UnOp); ok && ld.Op == token.MUL {
+				if _, ok := ld.X.(*ssa.FreeVar); ok {
+					continue
+				}
+			}
+		}
+		bad = true
+		c.Violation(w.Fn, "writers{Policy.ArchiveMinVersion}", w.Store.Pos(), "store to Policy.ArchiveMinVersion outside handleArchiving (and not the snapshot restore of Persist's rollback)", nil)
 	}
 	if !bad && len(ws) > 0 {
-		c.OK(nil, "writers{Policy.ArchiveMinVersion}", token.NoPos, fmt.Sprintf("%d store(s), all in handleArchiving", len(ws)))
+		c.OK(nil, "writers{Policy.ArchiveMinVersion}", token.NoPos, fmt.Sprintf("%d store(s): handleArchiving, or the snapshot restore in Persist's rollback", len(ws)))
 	}
 }
 
@@ -762,4 +772,90 @@ func c17g2AssocHelper(c *eng.Ctx) {
 		}
 	}
 	c17provAll(c, f, "associated data = full decoding of Encoded, decoding error handed on", dec[0], pv)
+}
+
+// ---------------------------------------------------------------------------
+// C17.3 Persist rolls back everything handleArchiving changed
+
+// c17g2PersistRollback (R4): handleArchiving mutates Policy fields before it
+// writes the archive, and Persist writes the policy after it; either write can
+// fail. Every scalar Policy field handleArchiving stores must therefore be
+// restored by Persist's deferred rollback, on every failure edge, from a
+// snapshot taken before handleArchiving ran. (A field left at its new value,
+// e.g. the archive base after a failed trim, makes the next Persist index the
+// stored archive with the wrong offset.)
+func c17g2PersistRollback(c *eng.Ctx) {
+	f, ha := c.Fn("keysutil.(*Policy).Persist"), c.Fn("keysutil.(*Policy).handleArchiving")
+	pol := c.P.NamedType("keysutil.Policy")
+	if f == nil || ha == nil {
+		return
+	}
+	if pol == nil {
+		c.Unresolved("keysutil.Policy")
+		return
+	}
+	st, _ := pol.Underlying().(*types.Struct)
+	isPolicyField := func(fv *types.Var) bool {
+		for i := 0; st != nil && i < st.NumFields(); i++ {
+			if st.Field(i) == fv {
+				return true
+			}
+		}
+		return false
+	}
+	var fields []*types.Var
+	seen := map[*types.Var]bool{}
+	for _, in := range eng.Instrs(ha, func(in ssa.Instruction) bool { _, ok := in.(*ssa.Store); return ok }) {
+		if fa, ok := in.(*ssa.Store).Addr.(*ssa.FieldAddr); ok {
+			if fv := eng.FieldVar(fa); fv != nil && isPolicyField(fv) && !seen[fv] {
+				seen[fv] = true
+				fields = append(fields, fv)
+			}
+		}
+	}
+	calls := instrsOf(eng.Calls(f, `^keysutil\.\(\*Policy\)\.handleArchiving$`))
+	if !c.Floor(ha, "Policy fields stored by handleArchiving", len(fields), 2) || len(calls) == 0 {
+		return
+	}
+	clo, mc, _, fail := c17rollback(f)
+	isRet := func(in ssa.Instruction) bool { _, ok := in.(*ssa.Return); return ok }
+	c.Clause("R4", "C17.3")
+	for _, fv := range fields {
+		site := "rollback{" + fv.Name() + " (written by handleArchiving) restored from a snapshot when Persist fails}"
+		if clo == nil {
+			c.Violation(f, site, f.Pos(), "Persist has no deferred rollback over its named error", nil)
+			continue
+		}
+		sts := c17fieldStores(clo, fv)
+		if len(sts) == 0 {
+			c.Violation(f, site, clo.Pos(), "handleArchiving sets "+fv.Name()+" before the archive and the policy are written, but Persist's rollback does not restore it: after a failed write the cached policy keeps the new value while storage keeps the old archive", nil)
+			continue
+		}
+		if h := eng.Reach(eng.Query{Fn: clo, StartEdges: fail, Barriers: instrsOf(sts), Target: isRet}); h != nil {
+			c.Violation(f, site, h.Instr.Pos(), "the rollback can return on a failure edge without restoring "+fv.Name(), h.Witness)
+			continue
+		}
+		a, snaps := c17snapshot(clo, mc, sts[0])
+		good := a != nil && len(snaps) > 0
+		var snapIn []ssa.Instruction
+		for _, s := range snaps {
+			snapIn = append(snapIn, s)
+			good = good && c17loadOf(fv)(s.Val)
+		}
+		if !good {
+			c.Violation(f, site, sts[0].Pos(), fv.Name()+" is restored from "+eng.Expr(sts[0].Val)+", which is not a snapshot of the same field", nil)
+			continue
+		}
+		late := false
+		for _, k := range calls {
+			if h := eng.Reach(eng.Query{Fn: f, StartAfter: k, Target: eng.IsTarget(snapIn)}); h != nil {
+				late = true
+				c.Violation(f, site, h.Instr.Pos(), "the snapshot of "+fv.Name()+" is taken after handleArchiving ran", h.Witness)
+				break
+			}
+		}
+		if !late {
+			c.OK(clo, site, sts[0].Pos(), "restored on every failure edge from a snapshot taken before handleArchiving")
+		}
+	}
 }
